@@ -49,21 +49,33 @@ def children(ctl, deviations, bound, cost, classes=None, label_filter=None):
 
 
 def subtree(run_fn, root, active, bound, cost=default_cost, on_exec=None, max_exec=None,
-            label_filter=None, **ctl_kw):
+            label_filter=None, split=None, **ctl_kw):
     """Explore every execution extending `root` (root itself included).
     on_exec(deviations, observation, controller) is called for every execution.
     Returns (#executions, cap_hit)."""
     stack = [dict(root)]
     n = 0
+    first = True
     while stack:
         dev = stack.pop()
         obs, ctl = execute(run_fn, dev, active, **ctl_kw)
+        kids = children(ctl, dev, bound, cost, label_filter=label_filter)
+        if first and split is not None:
+            # work splitting: sub-job k of m takes every m-th child of the root; the root
+            # execution itself is reported by sub-job 0 only
+            k, m = split
+            kids = kids[k::m]
+            first = False
+            if k != 0:
+                stack.extend(reversed(kids))
+                continue
+        first = False
         n += 1
         if on_exec:
             on_exec(dev, obs, ctl)
         if max_exec is not None and n >= max_exec:
             return n, bool(stack)
-        stack.extend(reversed(children(ctl, dev, bound, cost, label_filter=label_filter)))
+        stack.extend(reversed(kids))
     return n, False
 
 
